@@ -321,3 +321,96 @@ def inline_generators(fdef, lookup, notes=None):
     new = T().visit(fdef)
     ast.fix_missing_locations(new)
     return new
+
+
+# ------------------------------------------------------------------------------------------------------------------ row builders
+def _mentions(node, name):
+    return any(isinstance(n, ast.Name) and n.id == name for n in ast.walk(node))
+
+
+def _is_last_append(call, L):
+    """`L[-1].append(x)`"""
+    if not (isinstance(call, ast.Call) and isinstance(call.func, ast.Attribute) and call.func.attr == "append" and len(call.args) == 1 and not call.keywords):
+        return False
+    r = call.func.value
+    if not (isinstance(r, ast.Subscript) and isinstance(r.value, ast.Name) and r.value.id == L):
+        return False
+    sl = r.slice
+    return isinstance(sl, ast.UnaryOp) and isinstance(sl.op, ast.USub) and isinstance(sl.operand, ast.Constant) and sl.operand.value == 1
+
+
+def row_builders(fdef, notes=None):
+    """`L.append([]); for ..: .. L[-1].append(e) ..`  ==>  `_rowN = []; for ..: .. _rowN.append(e) ..; L.append(_rowN)`
+    (a row that is appended empty and then filled in place through `L[-1]` is the row built first and appended afterwards). Side conditions:
+    L is a plain local name (not a parameter, not global / nonlocal, bound to a list display or comprehension somewhere in the function); the two
+    statements are adjacent in one block; inside the loop L occurs ONLY as the receiver `L[-1]` of `.append(..)` statements; the loop has no
+    `else`, no `break` of its own is needed to be excluded (a `break` leaves the partial row appended in both readings); the statements are not
+    inside a `try` of this function (after an exception the partially filled row would be visible in L in one reading only) and L is not
+    captured by a nested function."""
+    fdef = copy.deepcopy(fdef)
+    params = {a.arg for a in fdef.args.args}
+    declared = {n_ for n in ast.walk(fdef) if isinstance(n, (ast.Global, ast.Nonlocal)) for n_ in n.names}
+    list_locals = set()
+    for n in ast.walk(fdef):
+        if isinstance(n, ast.Assign) and len(n.targets) == 1 and isinstance(n.targets[0], ast.Name) and isinstance(n.value, (ast.List, ast.ListComp)):
+            list_locals.add(n.targets[0].id)
+    nested = [n for n in ast.walk(fdef) if isinstance(n, (ast.FunctionDef, ast.Lambda)) and n is not fdef]
+    counter = [0]
+
+    def ok_loop(loop, L):
+        if loop.orelse or _mentions(loop.iter, L) or _mentions(loop.target, L):
+            return False
+        uses = 0
+        for n in ast.walk(ast.Module(body=loop.body, type_ignores=[])):
+            if isinstance(n, ast.Name) and n.id == L:
+                uses += 1
+        good = 0
+        for n in ast.walk(ast.Module(body=loop.body, type_ignores=[])):
+            if isinstance(n, ast.Expr) and _is_last_append(n.value, L) and not _mentions(n.value.args[0], L):
+                good += 1
+        return uses == good and good > 0
+
+    def rewrite_block(stmts, in_try):
+        out = []
+        i = 0
+        while i < len(stmts):
+            s = stmts[i]
+            nxt = stmts[i + 1] if i + 1 < len(stmts) else None
+            hit = None
+            if (not in_try and isinstance(s, ast.Expr) and isinstance(s.value, ast.Call) and isinstance(s.value.func, ast.Attribute)
+                    and s.value.func.attr == "append" and isinstance(s.value.func.value, ast.Name) and len(s.value.args) == 1 and not s.value.keywords
+                    and isinstance(s.value.args[0], ast.List) and not s.value.args[0].elts and isinstance(nxt, ast.For)):
+                L = s.value.func.value.id
+                if L in list_locals and L not in params and L not in declared and not any(_mentions(f, L) for f in nested) and ok_loop(nxt, L):
+                    hit = L
+            if hit:
+                counter[0] += 1
+                row = "_row%d" % counter[0]
+
+                class R(ast.NodeTransformer):
+                    def visit_Subscript(self, n):
+                        if isinstance(n.value, ast.Name) and n.value.id == hit:
+                            return ast.copy_location(ast.Name(id=row, ctx=ast.Load()), n)
+                        return self.generic_visit(n)
+                loop = R().visit(copy.deepcopy(nxt))
+                loop.body = rewrite_block(loop.body, in_try)
+                out.append(ast.copy_location(ast.Assign(targets=[ast.Name(id=row, ctx=ast.Store())], value=ast.List(elts=[], ctx=ast.Load())), s))
+                out.append(loop)
+                app_ = copy.deepcopy(s)
+                app_.value.args[0] = ast.Name(id=row, ctx=ast.Load())
+                out.append(ast.copy_location(app_, nxt))
+                if notes is not None:
+                    notes.append("row appended empty at line %d and filled through %s[-1]: read as built first, appended afterwards" % (s.lineno, hit))
+                i += 2
+                continue
+            for fld in ("body", "orelse", "finalbody"):
+                if isinstance(getattr(s, fld, None), list) and not isinstance(s, (ast.FunctionDef, ast.Lambda, ast.ClassDef)):
+                    setattr(s, fld, rewrite_block(getattr(s, fld), in_try or isinstance(s, ast.Try)))
+            for h in getattr(s, "handlers", []) or []:
+                h.body = rewrite_block(h.body, True)
+            out.append(s)
+            i += 1
+        return out
+    fdef.body = rewrite_block(fdef.body, False)
+    ast.fix_missing_locations(fdef)
+    return fdef
